@@ -404,6 +404,16 @@ def _sep_terminated(fi, arg, call) -> tuple[bool, str]:
                     return True, "X + os.sep"
                 if isinstance(v, ast.BinOp) and isinstance(v.op, ast.Div) and isinstance(v.right, ast.Constant) and v.right.value == "":
                     return True, 'Path(x) / ""'
+        # (c) the closest preceding assignment anywhere in the function (nested blocks included) builds a terminated value,
+        #     and it is in a block that encloses the call
+        cands = [a for a in ast.walk(fi.node) if isinstance(a, ast.Assign) and len(a.targets) == 1 and isinstance(a.targets[0], ast.Name) and a.targets[0].id == name and a.lineno < call.lineno]
+        if cands:
+            last = max(cands, key=lambda a: a.lineno)
+            v = last.value
+            terminated = (isinstance(v, ast.BinOp) and isinstance(v.op, ast.Div) and isinstance(v.right, ast.Constant) and v.right.value == "") or (isinstance(v, ast.BinOp) and isinstance(v.op, ast.Add) and is_sep(v.right))
+            encloses = any(last in getattr(blk, fld, []) and any(c is call for st_ in getattr(blk, fld)[getattr(blk, fld).index(last):] for c in ast.walk(st_)) for blk in ast.walk(fi.node) for fld in ("body", "orelse", "finalbody") if isinstance(getattr(blk, fld, None), list))
+            if terminated and encloses:
+                return True, f"`{ast.unparse(last)}` in the same block, before the call"
         return False, "no separator normalisation or guard dominates the call"
     return False, f"unrecognised operand {ast.unparse(arg)}"
 
